@@ -4,6 +4,7 @@ package capture
 
 import (
 	"context"
+	"time"
 
 	"github.com/els0r/goProbe/v4/cmd/goProbe/config"
 	"github.com/els0r/goProbe/v4/pkg/capture/capturetypes"
@@ -60,3 +61,39 @@ func VerifSetHostLinks(fn func(...string) (link.Links, error)) (restore func()) 
 // VerifConfig returns the configuration the capture was created with, i.e. what
 // its source init function reads (read only; C27).
 func (c *Capture) VerifConfig() config.CaptureConfig { return c.config }
+
+// ---- C21 / C29: schedule exploration of the three-point lock -------------------
+
+// VerifPerformWriteout forwards to the manager's periodic write-out path
+// (performWriteout: rotate every capture under its three-point lock and hand the
+// maps to the write-out handler).
+func VerifPerformWriteout(cm *Manager, ctx context.Context, ts time.Time) {
+	cm.performWriteout(ctx, ts)
+}
+
+// VerifCapture returns the running capture of an interface (nil if there is none).
+func VerifCapture(cm *Manager, iface string) *Capture {
+	c, _ := cm.captures.Get(iface)
+	return c
+}
+
+// VerifStats reads the capture's running counters (since the last status call / rotation).
+func (c *Capture) VerifStats() capturetypes.CaptureStats { return c.stats }
+
+// VerifLockChannels reads the fill state of the three-point lock: a lock request
+// that was not yet taken by process(), an unlock request not yet consumed.
+func (c *Capture) VerifLockChannels() (lockRequested, unlockRequested bool) {
+	return c.capLock.HasLockRequest(), c.capLock.HasUnlockRequest()
+}
+
+// VerifSetInitialBufferSize sets the package's initial local buffer size (page
+// size in production) so that a buffer limit of a few packets can be reached, and
+// returns the previous value.
+func VerifSetInitialBufferSize(n int) (old int) {
+	old, initialBufferSize = initialBufferSize, n
+	return old
+}
+
+// VerifSetLocalBuffers forwards to setLocalBuffers (InitManager calls it after
+// applying the options: it builds the pool with the configured number of buffers).
+func VerifSetLocalBuffers(cm *Manager) error { return cm.setLocalBuffers() }
